@@ -19,6 +19,8 @@ IN_PLACE_BY_DESIGN = {
 def run(ctx):
     P = ctx.prog
     E = Effects(P)
+    from .common import sidecar_append_rx
+    BEST_EFFORT = sidecar_append_rx(P)
     ctx.not_decided = 'what the file system does at a crash (rename atomicity, O_APPEND are trusted); the state of every cache after truncation at an arbitrary byte (validators of C04 are the code-side answer).'
     ctx.rule('C05.1', 'truth first: at every ContinuityStore append site the sidecar append and the broadcast exist and are reachable only through the Ok edge of the `?` on EventLog::append (no cache line / live frame for a frame that is not in the log).')
     ctx.rule('C05.2', 'artifact before frame: every *artifact_id field of a frame constructed in ripd gets its value from a blob writer call (which therefore ran first), from a parameter, or from an existing frame — never from a value computed without writing the blob.')
